@@ -35,6 +35,10 @@ pub enum PStep {
     GSerde(bool),
     /// search + connect through the result handle
     ConnectViaSearch(u16, u16, EV),
+    /// an edge loop / traversal closure over node u that mutates the graph while it runs
+    /// (mode 0: disconnect every yielded edge; 1: connect a new edge per yield, at most 4; 2: isolate at the
+    /// first yield; 3: bfs for_each closure that disconnects what it is shown; 4: iter_in + disconnect)
+    LoopMutate(u16, u8),
 }
 
 #[derive(Clone, Debug, PartialEq, Eq, Hash, Serialize, Deserialize)]
@@ -218,6 +222,45 @@ pub fn run_prog<F: Flavour>(p: &Prog, st: Option<&mut Stats>) -> Vec<String> {
                         }
                     }
                 }
+                PStep::LoopMutate(u, mode) => {
+                    let u = pt::idx(*u, n);
+                    let nd = &nodes[u];
+                    let mut yields: Vec<Tri> = vec![];
+                    let mut budget = 0;
+                    match mode % 5 {
+                        3 => {
+                            let mut f = |e: &F::Edge| {
+                                yields.push(F::tri(e));
+                                let _ = F::disconnect(F::e_src(e), F::key(F::e_dst(e)));
+                            };
+                            let _ = F::search(nd, &SearchCfg { algo: Algo::Bfs, transposed: false, term: Term::Search, target: None }, Meth::ForEach(&mut f));
+                        }
+                        m => {
+                            let kind = if m == 4 && F::DIRECTED { IterKind::In } else { IterKind::Out };
+                            F::iterate(nd, kind, &mut |e| {
+                                yields.push(F::tri(e));
+                                budget += 1;
+                                match m {
+                                    0 | 4 => {
+                                        let _ = F::disconnect(F::e_src(e), F::key(F::e_dst(e)));
+                                    }
+                                    1 => {
+                                        if budget <= 4 {
+                                            F::connect(nd, &nodes[(u + budget) % n], 70 + budget as EV);
+                                        }
+                                    }
+                                    _ => {
+                                        if budget == 1 {
+                                            F::isolate(nd);
+                                        }
+                                    }
+                                }
+                                budget < 64
+                            });
+                        }
+                    }
+                    format!("loop-mutate {} mode {}: yields {:?} ; state {:?}", u, mode % 5, yields, observe::<F>(&nodes))
+                }
                 PStep::ConnectViaSearch(a, b, e) => {
                     let (a, b) = (pt::idx(*a, n), pt::idx(*b, n));
                     let found = match F::search(&nodes[a], &SearchCfg { algo: Algo::Bfs, transposed: false, term: Term::Search, target: Some(b as Key) }, Meth::None) {
@@ -333,7 +376,7 @@ pub fn run_both(p: &Prog, st: &mut Stats, counting: bool, only: Option<&str>) ->
                         fancy = true;
                     }
                 }
-                PStep::Edge(..) | PStep::ConnectViaSearch(..) if seen_search => mut_after_search = true,
+                PStep::Edge(..) | PStep::ConnectViaSearch(..) | PStep::LoopMutate(..) if seen_search => mut_after_search = true,
                 _ => {}
             }
         }
@@ -379,6 +422,7 @@ fn step_strategy() -> impl Strategy<Value = PStep> {
         1 => Just(PStep::GDot),
         1 => any::<bool>().prop_map(PStep::GSerde),
         1 => (r(), r(), 0u32..4).prop_map(|(a, b, e)| PStep::ConnectViaSearch(a, b, e)),
+        2 => (r(), 0u8..5).prop_map(|(u, m)| PStep::LoopMutate(u, m)),
     ]
 }
 
@@ -441,7 +485,7 @@ pub fn run(ctx: &mut Ctx) {
                     steps.push(PStep::Search(if code % 2 == 0 { 0 } else { 40000 }, cell.clone(), mk, (code % 4) as u8));
                 }
             }
-            steps.extend([PStep::GInsert(0), PStep::GInsertNew(0, 1), PStep::GInsert(40000), PStep::GGet(0), PStep::GGet(30000), PStep::GViews, PStep::GScc, PStep::GDot, PStep::GSerde(false), PStep::GSerde(true), PStep::Compare(0, 40000), PStep::CompareEdges(0, 40000), PStep::Edge(OpKind::Isolate, 0, 0, 0), PStep::GViews]);
+            steps.extend([PStep::GInsert(0), PStep::GInsertNew(0, 1), PStep::GInsert(40000), PStep::GGet(0), PStep::GGet(30000), PStep::GViews, PStep::GScc, PStep::GDot, PStep::GSerde(false), PStep::GSerde(true), PStep::Compare(0, 40000), PStep::CompareEdges(0, 40000), PStep::LoopMutate(0, (code % 5) as u8), PStep::LoopMutate(40000, ((code / 5) % 5) as u8), PStep::Edge(OpKind::Isolate, 0, 0, 0), PStep::GViews]);
             let p = Prog { n: 2, prio: vec![1, 0], steps };
             st.class("programs.enumerated");
             if code == 77 {
